@@ -208,6 +208,15 @@ func execSv(toks []string) string {
 	}
 	reg = &registry{h: map[uint32]chan cmd{}}
 	myReg := reg
+	var panicMu sync.Mutex
+	panicMsg := ""
+	spdy.VerifC40OnPanic(func(msg string) {
+		panicMu.Lock()
+		if panicMsg == "" {
+			panicMsg = msg
+		}
+		panicMu.Unlock()
+	})
 	cc, sc := net.Pipe()
 	done := spdy.VerifC40Serve(sc, http.HandlerFunc(handler), maxS)
 	fr, err := spdy.NewFramer(cc, cc)
@@ -271,17 +280,36 @@ func execSv(toks []string) string {
 		}
 		var f spdy.Frame
 		switch {
-		case ev[0] == 'S' && len(n) == 2:
+		case ev[0] == 'S' && (len(n) == 2 || len(n) == 4):
+			// S id,fin[,method,cl]  method 0 POST 1 GET 2 HEAD (default: POST, GET with FIN);
+			// cl 0 = no Content-Length, 1 = "abc", 2 = "-5", k+10 = the number k
 			s := &spdy.SynStreamFrame{StreamId: spdy.StreamId(n[0]), Headers: http.Header{}}
-			s.Headers.Set(":method", "POST")
+			meth := "POST"
+			if n[1] != 0 {
+				meth = "GET"
+				s.CFHeader.Flags = spdy.ControlFlagFin
+			}
+			if len(n) == 4 {
+				if n[2] > 2 {
+					return "bad-op"
+				}
+				meth = []string{"POST", "GET", "HEAD"}[n[2]]
+				switch {
+				case n[3] == 1:
+					s.Headers.Set("content-length", "abc")
+				case n[3] == 2:
+					s.Headers.Set("content-length", "-5")
+				case n[3] >= 10:
+					s.Headers.Set("content-length", strconv.Itoa(int(n[3]-10)))
+				case n[3] != 0:
+					return "bad-op"
+				}
+			}
+			s.Headers.Set(":method", meth)
 			s.Headers.Set(":path", "/")
 			s.Headers.Set(":version", "HTTP/1.1")
 			s.Headers.Set(":host", "spdy.bfe.com")
 			s.Headers.Set(":scheme", "https")
-			if n[1] != 0 {
-				s.Headers.Set(":method", "GET")
-				s.CFHeader.Flags = spdy.ControlFlagFin
-			}
 			f = s
 		case ev[0] == 'D' && len(n) == 3 && n[1] <= 1<<20:
 			d := &spdy.DataFrame{StreamId: spdy.StreamId(n[0]), Data: make([]byte, n[1])}
@@ -326,6 +354,14 @@ func execSv(toks []string) string {
 		closed := cv.closed
 		cv.mu.Unlock()
 		out = append(out, render(got))
+		panicMu.Lock()
+		pm := panicMsg
+		panicMu.Unlock()
+		if pm != "" {
+			// the serve goroutine panicked (recovered by notePanic, the connection is gone)
+			out = append(out, "PANIC("+strings.ReplaceAll(pm, " ", "_")+")")
+			break
+		}
 		goaway := false
 		for _, g := range got {
 			if _, ok := g.(*spdy.GoAwayFrame); ok {
@@ -430,10 +466,17 @@ func gen(r *vh.Rand) string {
 			if id%2 == 1 {
 				ids = append(ids, id)
 			}
-			p = append(p, fmt.Sprintf("S%d,%d", id, r.Intn(3)/2))
+			fin := r.Intn(3) / 2
+			if r.Chance(1, 2) {
+				p = append(p, fmt.Sprintf("S%d,%d", id, fin))
+			} else {
+				meth := pick(r, 0, 0, 1, 1, 2)
+				cl := pick(r, 0, 1, 2, 10, 10, 10, 15, 15, 20, 110, 65546, 70010)
+				p = append(p, fmt.Sprintf("S%d,%d,%d,%d", id, fin, meth, cl))
+			}
 		case 4, 5, 6, 7:
-			l := pick(r, 0, 1, 100, 16384, 32768, 65535, 65536, 65537, 40000, 7)
-			p = append(p, fmt.Sprintf("D%d,%d,%d", pickID(), l, r.Intn(4)/3))
+			l := pick(r, 0, 0, 1, 5, 5, 10, 100, 16384, 32768, 65535, 65536, 65537, 40000, 7)
+			p = append(p, fmt.Sprintf("D%d,%d,%d", pickID(), l, r.Intn(3)/2))
 		case 8:
 			d := pick(r, 0, 1, 65536, 2147418111, 2147418112, 2147483647, 2147483648+5, 10, 20000)
 			id := pickID()
